@@ -337,13 +337,20 @@ func runProperty(cfg RunConfig, evidencePath, knownPath, baselinePath string, up
 		b, _ := json.MarshalIndent(baseline, "", " ")
 		os.WriteFile(baselinePath, b, 0o644)
 	}
+	// must-fail self test (vacuity guard of the generator itself)
+	nCan := 1
+	if cfg.Tier == "thorough" {
+		nCan = 0
+	}
+	ranCan, missedCan := runSelftest(cfg, "/verif/selftest/canaries.json", nCan)
+	selftestRan, selftestMissed = ranCan, missedCan
 	wall := time.Since(t0).Seconds()
 	writeEvidence(e, cfg, rr, evidencePath, proved, failed, undecided, vacuous, knownLines, violations, covers, seed, wall)
 	fmt.Printf("%s: functions=%d obligations=%d discharged=%d failed=%d (known=%d undecided=%d) violations=%d paths=%d queries=%d wall=%.1fs\n",
 		cfg.Prop, len(rr.Funcs), len(proved)+len(failed), len(proved), len(failed), len(knownLines), len(undecided), violations, rr.Paths, rr.Solver.nQueries, wall)
 	// scratch cleanup: keep replay files and a few sample obligations only
 	cleanupWork(cfg.Work)
-	if len(rr.Errors) > 0 || len(vacuous) > 0 {
+	if len(rr.Errors) > 0 || len(vacuous) > 0 || missedCan > 0 {
 		return 2
 	}
 	if violations > 0 {
@@ -439,6 +446,8 @@ func writeEvidence(e *Engine, cfg RunConfig, rr *RunResult, path string, proved,
 			"discharged_by_backend":    wins,
 			"solver_seconds":           secs,
 			"cover_checks":             covers,
+			"selftest_canaries_run":    selftestRan,
+			"selftest_canaries_missed": selftestMissed,
 			"vacuous":                  vacuous,
 			"known_findings_reported":  known,
 			"undecided":                undecided,
@@ -456,6 +465,8 @@ func writeEvidence(e *Engine, cfg RunConfig, rr *RunResult, path string, proved,
 	b, _ := json.MarshalIndent(ev, "", " ")
 	os.WriteFile(path, b, 0o644)
 }
+
+var selftestRan, selftestMissed int
 
 func oblNames(rs []*OblResult) []string {
 	out := []string{}
